@@ -96,7 +96,8 @@ func (q *ShardQueue) Add(gts ...WriterGetter) {
 	if atomic.LoadInt32(&q.state) != active {
 		return
 	}
-	shard := atomic.AddInt32(&q.idx, 1) % q.size
+	// idx wraps around: take it as unsigned, the remainder of a negative int32 would be a negative index
+	shard := int32(uint32(atomic.AddInt32(&q.idx, 1)) % uint32(q.size))
 	q.lock(shard)
 	trigger := len(q.getters[shard]) == 0
 	q.getters[shard] = append(q.getters[shard], gts...)
